@@ -353,6 +353,24 @@ def run_shard(spec, R):
             ok, affn = R.guarded("setup:affine", lambda: darsia.AffineCorrection(cs, cs, corners, corners, fit_options={"tol": 1e-10, "maxiter": 3000}))
             if ok:
                 drive("affine_neutral", affn, inputs(rng, shape, fdtype, ["array2", "scalar", "optical", "optical_series"]), neutral=True)
+            # the same neutral fits with control points given in physical coordinates, on voxel sizes that are not
+            # exactly representable (0.1, 0.3, ...)
+            hh = [0.1, 0.3, 0.07][rnd % 3]
+            cimg = darsia.ScalarImage(rng.random(shape), dimensions=[shape[0] * hh, shape[1] * hh])
+            ccs = cimg.coordinatesystem
+            cpts = darsia.make_coordinate(np.asarray(ccs.coordinate(corners), float))
+            ok, affc = R.guarded("setup:affine", lambda: darsia.AffineCorrection(ccs, ccs, cpts, cpts, fit_options={"tol": 1e-12, "maxiter": 3000}))
+            if ok:
+                drive("affine_neutral_coordinates", affc, inputs(rng, shape, fdtype, ["array2", "scalar", "optical_series"]), neutral=True)
+            ok, gpc = R.guarded("setup:perspective", lambda: darsia.GeneralizedPerspectiveCorrection(ccs, ccs, cpts, cpts, fit_options={}))
+            if ok:
+                drive("perspective_neutral_coordinates", gpc, inputs(rng, shape, fdtype, ["array2", "scalar"]), neutral=True)
+            # an inactive colour correction with the clip option set is still neutral, also for data outside [0, 1]
+            wide = (rng.random(shape + (3,)) * 2.0 - 0.5).astype(np.float32)
+            ccl = darsia.ColorCorrection(base=darsia.CustomColorChecker(reference_colors=ref), config={"roi": roi, "active": False, "clip": True})
+            drive("colour_inactive_clip", ccl, [("array3", wide.copy()), ("optical", darsia.OpticalImage(wide.copy(), dimensions=[1.0, 1.0], color_space="RGB")),
+                                                ("optical_series", darsia.OpticalImage(np.stack([wide, wide[::-1]], axis=2), dimensions=[1.0, 1.0], color_space="RGB", series=True, time=[0.0, 1.0]))],
+                  neutral=True, neutral_as_float=True)
             ok, gp = R.guarded("setup:perspective", lambda: darsia.GeneralizedPerspectiveCorrection(cs, cs, corners, corners, fit_options={}))
             if ok:
                 drive("perspective_neutral", gp, inputs(rng, shape, fdtype, ["array2", "scalar", "optical", "optical_series"]), neutral=True)
